@@ -63,6 +63,10 @@ def wD (a : Array Arg) (i : Nat) : BitVec 64 :=
   | some (.w v) => v
   | _ => 0#64
 
+/-- scalar-alias variants `<op>__as<k>`: the scalar argument of the call is element `j` of the result array as it is
+    BEFORE the call (call by value) -/
+def aliasW (l : List (BitVec 64)) (j : BitVec 64) : BitVec 64 := l.getD j.toNat 0#64
+
 def rD (a : Array Arg) (i : Nat) : List (BitVec 64) :=
   match a[i]? with
   | some (.r l) => l
